@@ -4247,13 +4247,17 @@ fn char_from_char10(value: &str) -> error::Result<char> {
     let num = value
         .parse::<u32>()
         .map_err(|_| error::Error::NotFoundReference(format!("#{}", value)))?;
-    char::from_u32(num).ok_or(error::Error::NotFoundReference(format!("#{}", value)))
+    char::from_u32(num)
+        .filter(|c| xml_nom::xmlchar::is_char(*c))
+        .ok_or(error::Error::NotFoundReference(format!("#{}", value)))
 }
 
 fn char_from_char16(value: &str) -> error::Result<char> {
     let num = u32::from_str_radix(value, 16)
         .map_err(|_| error::Error::NotFoundReference(format!("#x{}", value)))?;
-    char::from_u32(num).ok_or(error::Error::NotFoundReference(format!("#x{}", value)))
+    char::from_u32(num)
+        .filter(|c| xml_nom::xmlchar::is_char(*c))
+        .ok_or(error::Error::NotFoundReference(format!("#x{}", value)))
 }
 
 fn delete_char_range(value: &str, offset: usize, count: usize) -> String {
